@@ -1281,6 +1281,47 @@ def fnPathArgs : List Value → List Expr
   | _ :: _ :: _ => [.path ["{arg0}"], .path ["{arg1}"]]
 -- [errors] END --------------------------------------------------------------------------------------
 
+-- [poller] begin: by-reference arguments of calls of functions of `fns`
+/-- Rust: `f(&mut x)` lends the caller's local variable `x` to `f` for the duration of the call; inside `f`
+    the parameter (`p: &mut T`) is used through auto-deref (`p.m()`, `p.f = ..`, `*p = ..`), i.e. like a
+    variable holding the value of `x`, and what `f` leaves in it is what `x` holds after the call.  The
+    interpreter has no aliasing: as for the receiver of a `&mut self` method, the parameter is BOUND TO THE
+    VALUE of `x` (here) and the final value is WRITTEN BACK on return (`writeBackArgs`).  `&mut x` arrives as
+    the object `ext "&mut" [x]` (rule `[poller]` of `eval`).  Arguments that are not such objects are
+    untouched.  Sound as long as the callee does not also reach `x` by another path (Rust's borrow checker
+    forbids it) and does not shadow the parameter by a `let` of the same name at function level (as for
+    `self`; not checked). -/
+def derefArgs (env : List (String × Value)) : List Value → Option (List Value)
+  | [] => some []
+  | .ext "&mut" [.str x] :: rest =>
+    match envGet env x, derefArgs env rest with
+    | some v, some vs => some (v :: vs)
+    | _, _ => none
+  | v :: rest =>
+    match derefArgs env rest with
+    | some vs => some (v :: vs)
+    | none => none
+
+/-- on return from a function of `fns`: for every argument `&mut x` (its parameter must be a plain binding
+    `p`; any other pattern: no rule) the callee's final value of `p` is stored into the caller's `x`.
+    `callee` = the callee's final environment, `env` = the caller's. -/
+def writeBackArgs (callee : List (String × Value)) :
+    List (Pat × String) → List Value → List (String × Value) → Option (List (String × Value))
+  | [], [], env => some env
+  | (pat, _) :: ps, .ext "&mut" [.str x] :: rest, env =>
+    match pat with
+    | .bind p =>
+      match envGet callee p with
+      | some v =>
+        match envSet env x v with
+        | some env' => writeBackArgs callee ps rest env'
+        | none => none
+      | none => none
+    | _ => none
+  | _ :: ps, _ :: rest, env => writeBackArgs callee ps rest env
+  | _, _, _ => none
+-- [poller] end
+
 /-- bind the arguments to the parameter patterns (ascribing the declared types) -/
 def bindParams : Nat → String → List (Pat × String) → List Value → Option (List (String × Value))
   | 0, _, _, _ => none
@@ -1753,11 +1794,15 @@ def evalArms : Nat → Ctx → Frame → List Arm → Value → St → Res
 def callDecl : Nat → Ctx → FnDecl → Value → List Value → St → Res
   | 0, _, _, _, _, _ => .stuck "out of fuel"
   | n + 1, ctx, d, self, args, st =>
-    orStuck "call: arguments do not fit the parameters" (bindParams n d.selfTy d.params args) fun bs =>
+    -- [poller] an argument `&mut x` stands for the value of the caller's `x` (`derefArgs`) ...
+    orStuck "call: &mut argument of something that is not a local variable" (derefArgs st.env args) fun args' =>
+    orStuck "call: arguments do not fit the parameters" (bindParams n d.selfTy d.params args') fun bs =>
       let env := if d.self = .none then bs else bs ++ [("self", self)]
       let finish := fun (v : Value) (st' : St) =>
         orStuck "call: result does not fit the declared type" (ascribe d.ret v) fun v' =>
-          .val (.tuple [v', (envGet st'.env "self").getD .unit]) { st' with env := st.env }
+          -- [poller] ... and the callee's final value of the parameter is stored back (`writeBackArgs`)
+          orStuck "call: &mut argument bound by a pattern" (writeBackArgs st'.env d.params args st.env) fun env' =>
+          .val (.tuple [v', (envGet st'.env "self").getD .unit]) { st' with env := env' }
       (evalBlock n ctx ⟨d.module, d.selfTy, d.ret⟩ d.body { st with env := env }).on finish finish
 
 end
